@@ -58,6 +58,7 @@ def mwem_pgm(data, epsilon, delta=0.0, workload=None, rounds=None, maxsize_mb = 
     - During each round of MWEM, one clique will be selected for measurement, but only if measuring the clique does
         not increase size of the graphical model too much
     """ 
+    assert 0 < alpha <= 1, 'alpha is the fraction of each round\'s budget spent on the measurement: it must lie in (0, 1]'
     if workload is None:
         workload = list(itertools.combinations(data.domain, 2))
     if rounds is None:
